@@ -357,6 +357,10 @@ void constructCommon(ModelSignature model,
         load_complete(); // flush completed jobs
         TSG_VERIF_EVENT("pc_flush", {(long long) complete.getNumStored(), (long long) grid.getNumLoaded()});
     }
+
+    // the construction is complete and the main file holds the last saved state: drop the backup,
+    // a later run that starts over (and deletes only the main file) must not recover from this one
+    if (!filename.empty()) std::remove(filename_old.c_str());
 }
 
 /*!
